@@ -123,6 +123,7 @@ func (c *Ctx) checkInviteGate(setters []fieldAccess) {
 			saveFn := c.funcsCalling(c.E().storeIface("MessagesPersistenceInterface", "Save"), "server")
 			okSave := false
 			for _, sf := range saveFn {
+				sf = c.phaseRoot(sf)
 				core.AllInstrs(fn, func(in ssa.Instruction) {
 					if call, ok := in.(*ssa.Call); ok && call.Call.StaticCallee() == sf {
 						if g, _ := core.GuardedBy(fn, site, successGuard(call)); g {
@@ -493,6 +494,7 @@ func (c *Ctx) checkReplacementMessage() {
 	contentF := c.field("server", "videoCall", "content")
 	getOrig := c.method("server", "Topic", "getCallOriginator")
 	for _, sf := range c.funcsCalling(c.E().storeIface("MessagesPersistenceInterface", "Save"), "server") {
+		sf = c.phaseRoot(sf)
 		for _, cs := range c.callersOf(sf) {
 			if c.readsField(cs.Caller, c.field("server", "MsgClientPub", "Content")) {
 				continue
